@@ -425,3 +425,70 @@ def c20j(ctx):
         ctx.check(ok, '%s.load_tiles:size-recorded' % cname, 'every tile delivered by the bulk load has its size recorded (ETag input)', fn,
                   fail='%s.load_tiles delivers tiles without recording their size%s: the ETag of a tile does not change when the tile is rewritten '
                        '(304 for outdated content)' % (cname, ' (shortcut through load_tile)' if delegs else ''))
+
+
+DERIVED_IMAGE_SITES = [
+    # (function, constructor, what its `cacheable` must come from)
+    ('mapproxy/image/merge.py:BandMerger.merge', 'ImageSource', 'all-sources'),
+    ('mapproxy/image/tile.py:TileSplitter.get_tile', 'ImageSource', 'self.cacheable'),
+]
+
+
+@rule('C20.k', floor=4)
+def c20k(ctx):
+    """the "do not cache" mark of an image survives every image that is made from it: a band merge of uncacheable sources and a tile
+    cut out of an uncacheable meta tile are uncacheable themselves (like the results of LayerMerger.merge, TileMerger.merge and
+    ImageTransformer.transform, C20.h / C20.i).  A derived image built with the default cacheable=True is stored by the cache that
+    asked for it and sent with validators: the error fill image outlives the upstream error"""
+    bm = ctx.fn('mapproxy/image/merge.py:BandMerger.merge')
+    srcs = bm.params[1]
+    res = [x for x in bm.walk() if is_call(x, 'ImageSource')]
+    ok = bool(res)
+    for x in res:
+        c = keyword(x, 'cacheable')
+        form = bm.canon.expr(c) if c is not None else None
+        good = form is not None and contains(form, lambda y: is_call(y, 'all') and y.args and isinstance(y.args[0], (ast.GeneratorExp, ast.ListComp)) and
+                                             same(y.args[0].generators[0].iter, srcs) and not y.args[0].generators[0].ifs and
+                                             isinstance(y.args[0].elt, ast.Attribute) and y.args[0].elt.attr == 'cacheable') and \
+            not contains(form, lambda y: is_call(y, 'any'))
+        ok = ok and good
+    ctx.check(ok, 'BandMerger.merge:cacheable-iff-all-sources', 'the band-merged image is cacheable only if every source image is', bm,
+              fail='BandMerger.merge builds its result with cacheable=True whatever the sources are: an uncached error image of a band source is stored')
+    ts = ctx.fn('mapproxy/image/tile.py:TileSplitter.get_tile')
+    init = ctx.fn('mapproxy/image/tile.py:TileSplitter.__init__')
+    res = [x for x in ts.walk() if is_call(x, 'ImageSource')]
+    ok = bool(res) and all(keyword(x, 'cacheable') is not None and same(keyword(x, 'cacheable'), 'self.cacheable') for x in res)
+    mt = init.params[1]
+    sets = [s for s in init.walk() if isinstance(s, ast.Assign) and unparse(s.targets[0]) == 'self.cacheable']
+    ok = ok and bool(sets) and all(same(s.value, '%s.cacheable' % mt) for s in sets)
+    ctx.check(ok, 'TileSplitter.get_tile:inherits-cacheable', 'a tile cut out of a meta tile image carries the cacheable flag of that image', ts,
+              fail='the image of a tile cut from a meta tile is built with cacheable=True: a cache that uses the meta tiled cache as its source reads '
+                   'that mark (TileMerger) and stores an uncached error image')
+    # the readers of the mark
+    tm = ctx.fn('mapproxy/image/tile.py:TileMerger.merge')
+    g = tm.cfg
+    falses = g.find_stmts(lambda s: isinstance(s, ast.Assign) and unparse(s.targets[0]) == 'cacheable' and const_value(s.value, 1) is False)
+    ok = bool(falses) and all(g.guarded(n, lambda at: at.op is None and unparse(at.expr).endswith('.cacheable'), False) for n in falses)
+    res = [x for x in tm.walk() if is_call(x, 'ImageSource') and keyword(x, 'cacheable') is not None]
+    ok = ok and bool(res) and all(unparse(keyword(x, 'cacheable')) == 'cacheable' for x in res)
+    ctx.check(ok, 'TileMerger.merge:cacheable-iff-all-tiles', 'the image merged from tiles is cacheable only if every tile image is', tm)
+    it = ctx.fn('mapproxy/image/transform.py:ImageTransformer.transform')
+    sets = [s for s in it.walk() if isinstance(s, ast.Assign) and unparse(s.targets[0]).endswith('.cacheable')]
+    ok = bool(sets) and all(unparse(s.value).endswith('.cacheable') and unparse(s.value).split('.')[0] in it.params for s in sets)
+    ctx.check(ok, 'ImageTransformer.transform:inherits-cacheable', 'a transformed image carries the cacheable flag of its source image', it)
+
+
+@rule('C20.l', floor=2)
+def c20l(ctx):
+    """shared rule, re-evaluated for this property: the validators of a tile change when the tile is rewritten -- a store to an address
+    that already holds a tile replaces the whole row, last_modified included (C05.e overwrites-whole-row); with the old time stamp
+    (and the same size) a client that revalidates the old version is answered 304"""
+    from ..engine import run_property
+    sub = run_property(ctx.repo, 'C05', ctx.tier, only={'C05.e'})
+    for er in sub.errors:
+        raise Undecided('shared rule %s: %s' % er)
+    for o in sub.obs:
+        if 'overwrites-whole-row' not in o.construct:
+            continue
+        (ctx.ok if o.status == 'ok' else ctx.bad)('%s:%s' % (o.rule, o.construct), o.msg, o.where)
+    ctx.stats['functions'] |= {q for q in sub.stats['functions'] if '_store_bulk' in q}
